@@ -44,4 +44,4 @@ for p in ["C%02d"%i for i in range(1,21)]:
     except FileNotFoundError: j={"property":p,"findings":[]}
     j['fixed']=by.get(p,[])
     json.dump(j,open(path,'w'),indent=0)
-    print(p,len(j['fixed']),'fixed;',[(f['id'],len(f.get('instance_hashes',[]))) for f in j['findings']])
+    print(p,len(j['fixed']),'fixed;',[(f['id'],len(f.get('instances',{}))) for f in j['findings']])
